@@ -35,6 +35,7 @@ ASSUMPTIONS = [
 ]
 
 EPS_SCALE = F(1, 2 ** 30)
+GRID = 2.0 ** 34
 SAGITTA = 1 - math.cos(math.pi / 99)
 
 
@@ -44,9 +45,16 @@ def ang_theta(a):
     if a is None:
         return None
     if a[0] == 'mult':
-        return a[1] * (math.pi / 2) + a[2]
+        return a[1] * (math.pi / 2) + small_delta(a[2])
     c, s = F(a[1], a[3]), F(a[2], a[3])
     return math.atan2(float(s), float(c)) + (2 * math.pi * a[4] if len(a) > 4 else 0.0)
+
+
+def small_delta(j):
+    """the small offsets from a multiple of pi/2: +-2*atan(2^-|j|) (so that cos and sin are rationals with few bits); j = 0 means none"""
+    if j == 0:
+        return 0.0
+    return math.copysign(2 * math.atan(2.0 ** -abs(j)), j)
 
 
 def ang_cs(a):
@@ -56,7 +64,7 @@ def ang_cs(a):
     if a[0] == 'mult':
         k = a[1] % 4
         c0, s0 = [(1, 0), (0, 1), (-1, 0), (0, -1)][k]
-        t = F(a[2]) / 2
+        t = F(0) if a[2] == 0 else F(1 if a[2] > 0 else -1, 2 ** abs(a[2]))
         c1, s1 = (1 - t * t) / (1 + t * t), 2 * t / (1 + t * t)
         return compose((F(c0), F(s0)), (c1, s1))
     return F(a[1], a[3]), F(a[2], a[3])
@@ -88,14 +96,15 @@ def poly_skip(dtheta):
 
 def ang_exact(a):
     """exact multiples of pi/2: the code runs one of its two axis-aligned tests, whose float arithmetic is exact on dyadic input"""
-    return a is None or (a[0] == 'mult' and a[2] == 0.0)
+    return a is None or (a[0] == 'mult' and a[2] == 0)
 
 
 PYTH = [(3, 4, 5), (4, 3, 5), (-3, 4, 5), (5, 12, 13), (12, -5, 13), (-8, -15, 17), (20, 21, 29), (-21, 20, 29),
         (7, 24, 25), (24, 7, 25), (-7, -24, 25), (40, 9, 41), (9, -40, 41), (60, 11, 61), (1, 0, 1), (0, 1, 1), (0, -1, 1), (-1, 0, 1),
         (2047, 64, 2049 - 1)]
 PYTH = [p for p in PYTH if p[0] ** 2 + p[1] ** 2 == p[2] ** 2]
-DELTAS = [0.0, 1e-12, -1e-12, 1e-10, -1e-10, 1e-8, -1e-8]
+# 2*atan(2^-j): 9.1e-13, 1.2e-10 (inside the isclose window of 1e-9), 1.9e-9, 1.5e-8 (outside)
+DELTAS = [0, 41, -41, 34, -34, 30, -30, 27, -27]
 
 
 def all_angles(ks=range(-4, 9)):
@@ -481,7 +490,8 @@ def make_points(truth, rng, n_rand, n_bnd, eps):
         off = rng.choice([0.0, 3 * fe, -3 * fe, 50 * fe, -50 * fe, 2.0 ** -20, -2.0 ** -20, 2.0 ** -10, -2.0 ** -10])
         ang = rng.uniform(0, 2 * math.pi)
         P.append((float(b[0]) + off * math.cos(ang), float(b[1]) + off * math.sin(ang)))
-    return np.array(P, dtype=float).reshape(-1, 2)
+    # all coordinates on the 2^-34 lattice: exactly representable, and the model's rationals stay short
+    return np.round(np.array(P, dtype=float).reshape(-1, 2) * GRID) / GRID
 
 
 # ------------------------------------------------------------------ the core comparison
@@ -741,7 +751,7 @@ def stream_small(R):
             for npy in (False, True):
                 base.append(poly_spec(name, closed=closed, numpy=npy))
     alphabet = [('move', F(5, 2), F(-3, 4)), ('move', F(0), F(0)),
-                ('rot', ('mult', 1, 0.0)), ('rot', ('mult', 2, 0.0)), ('rot', ('mult', 4, 0.0)), ('rot', ('mult', 2, 1e-10)),
+                ('rot', ('mult', 1, 0)), ('rot', ('mult', 2, 0)), ('rot', ('mult', 4, 0)), ('rot', ('mult', 2, 34)),
                 ('rot', ('pyth', 3, 4, 5)), ('rot', ('pyth', -8, -15, 17)), ('topoly',)]
     maxlen = R.pick(1, 2)
     n = 0
@@ -749,7 +759,7 @@ def stream_small(R):
         seqs = [()]
         for L in range(1, maxlen + 1):
             seqs += list(itertools.product(alphabet, repeat=L))
-        if R.quick() and spec[0] in ('rect', 'ell') and spec[5] is not None and spec[5][0] == 'mult' and spec[5][2] != 0.0:
+        if R.quick() and spec[0] in ('rect', 'ell') and spec[5] is not None and spec[5][0] == 'mult' and spec[5][2] != 0:
             seqs = [()] + [(a,) for a in alphabet[:1] + alphabet[6:7]]
         for ops in seqs:
             if not ops_valid(spec, ops):
@@ -767,7 +777,7 @@ def stream_small(R):
                 B.finish()
     B.finish()
     R.stream('small', cases=n, exhaustive=True,
-             bound='rectangles/ellipses at %d angles (k*pi/2 + {0,+-1e-12,+-1e-10,+-1e-8}, Pythagorean), %d polygons (open/closed, list/numpy vertices), '
+             bound='rectangles/ellipses at %d angles (k*pi/2 + {0, +-9e-13, +-1.2e-10, +-1.9e-9, +-1.5e-8}, Pythagorean), %d polygons (open/closed, list/numpy vertices), '
                    'circle/annulus/range; all op sequences of length <= %d over a 9-letter alphabet (move, rotate, to_polygon)' % (len(angs), len(POLYS) * 4, maxlen))
 
 
@@ -990,7 +1000,7 @@ def stream_projected(R):
     if not R.quick():
         for i in range(4):
             rng = R.subrng('projbig', i)
-            spec = [('circ', F(0), F(0), F(3, 2)), ('rect', F(-1), F(2), F(-1), F(1), ('pyth', 3, 4, 5)), poly_spec('L'), ('ell', F(0), F(0), F(3), F(1), ('mult', 1, 1e-8))][i]
+            spec = [('circ', F(0), F(0), F(3, 2)), ('rect', F(-1), F(2), F(-1), F(1), ('pyth', 3, 4, 5)), poly_spec('L'), ('ell', F(0), F(0), F(3), F(1), ('mult', 1, 27))][i]
             m = matrices(rng)
             roi, truth, info = run_impl(spec, ())
             proj = R_.Projected3dROI(roi_2d=roi, projection_matrix=np.array([[float(v) for v in row] for row in m]))
@@ -1124,8 +1134,8 @@ def run(R):
     stream_shapes(R)
     stream_projected(R)
     stream_subset_state(R)
-    R.sample({'roi': ['rect', -1.0, 3.0, 0.5, 2.5, ['pyth', 3, 4, 5]], 'ops': [['move', 2.5, -0.75], ['rot', ['mult', 2, 1e-10]]], 'points': [[0.25, 1.0]]})
-    R.sample({'roi': ['poly', [[0, 0], [4, 0], [4, 1], [1, 1], [1, 3], [0, 3], [0, 0]], 'numpy'], 'ops': [['move', 0.0, 0.0], ['rot', ['mult', 2, 0.0]]]})
+    R.sample({'roi': ['rect', -1.0, 3.0, 0.5, 2.5, ['pyth', 3, 4, 5]], 'ops': [['move', 2.5, -0.75], ['rot', ['mult', 2, 34]]], 'points': [[0.25, 1.0]]})
+    R.sample({'roi': ['poly', [[0, 0], [4, 0], [4, 1], [1, 1], [1, 3], [0, 3], [0, 0]], 'numpy'], 'ops': [['move', 0.0, 0.0], ['rot', ['mult', 2, 0]]]})
 
 
 def replay(R, case):
